@@ -476,6 +476,11 @@ class MathAbs:
                 rn, rd = math.isqrt(n), math.isqrt(d)
                 if rn * rn == n and rd * rd == d:
                     return SV(z3.RealVal(str(Fraction(rn, rd))))
+                # sqrt(2 q^2) = 2 q * (sqrt(2)/2): one shared algebraic constant
+                g = f / 2
+                gn, gd = math.isqrt(g.numerator), math.isqrt(g.denominator)
+                if gn * gn == g.numerator and gd * gd == g.denominator:
+                    return SV(z3.RealVal(str(2 * Fraction(gn, gd))) * self._sqrt2h())
         t = z3.simplify(z3real(x))
         key = t.sexpr()
         if key in self.sqrt_memo:
